@@ -10,7 +10,7 @@ RULE = ('Evaluation = one pair of adjacent reported bases. Groups: for consecuti
         're-merged) and with an empty exclusion list, pairwise distance of its layers\' bases >= min_sep(group '
         'base). Workloads: generated scenes; chains of 3-6 close flat layers seen by 1-3 biased ceilometers '
         '(repeated merges) x exclusion subsets; bi-/tri-modal and converging thick groups x look-back x '
-        'percentile x 1-3 separation bins x all row orders; engineered 'tie at the look-back cut' scenes (simultaneous hits of several ceilometers, an outlier in the time step split by the cut). Non-trivial = pair closer than 2*min_sep; distinct = '
+        'percentile x 1-3 separation bins x all row orders; engineered tie-at-the-look-back-cut scenes (simultaneous hits of several ceilometers, an outlier in the time step split by the cut). Non-trivial = pair closer than 2*min_sep; distinct = '
         'hash of (rows, parameters, level, pair index).')
 ASSUMPTIONS = ['groups with a re-merge (final ncomp < raw) or with exclusion active are outside the layer clause and are only counted']
 REQUIRED = ['merge', 'chained_merges', 'split_raw_eq_final', 'gt1_sep_bin', 'merge_with_exclusion',
